@@ -12,11 +12,15 @@ import (
 //
 //   - data responses are delivered to the command they answer: FETCH / UID FETCH whose set ends in
 //     "*" (the last message of the mailbox, whatever its number) or is the saved search result "$".
+//   - STATUS data is delivered to the command for the mailbox it names: every ordered pair of
+//     mailbox names (spellings that differ only in case are different mailboxes, except INBOX),
+//     two pipelined STATUS commands, answered in either order.
 //   - the reported state equals what the transcript so far implies: when a command's Wait has
 //     returned, the tagged response is part of the transcript the caller knows about, so State()
 //     and Mailbox() read right after Wait must already reflect it.
 func c12Directed(h *H) {
 	c12StarFetch(h)
+	c12StatusNames(h)
 	c12WaitThenState(h)
 }
 
@@ -203,4 +207,89 @@ func c12WaitThenState(h *H) {
 	}
 	h.Eval("wait-then-state")
 	h.Hist("directed:wait-then-state")
+}
+
+// c12StatusNames: two pipelined STATUS commands for every ordered pair of names of c12Boxes,
+// answered in submission order and (when the names designate different mailboxes, so that the
+// commands are independent and their responses unambiguous, RFC 9051 5.5) in reverse order. Each
+// command's Wait must return the data of the STATUS response naming its own mailbox.
+func c12StatusNames(h *H) {
+	peer := newPeer("* OK [CAPABILITY IMAP4rev1] hi\r\n")
+	defer peer.Close()
+	client, _ := peer.dialClient(nil)
+	defer func() { withTimeout(3*time.Second, func() { client.Close() }) }()
+	type res struct {
+		box string
+		num int
+		err error
+	}
+	n := 0
+	for _, a := range c12Boxes {
+		for _, b := range c12Boxes {
+			for _, reverse := range []bool{false, true} {
+				if reverse && boxKey(a) == boxKey(b) {
+					continue
+				}
+				n += 2
+				want := [2]int{1000 + n, 1001 + n}
+				desc := map[string]interface{}{"directed": "status-names", "first": a, "second": b, "answered_in_reverse_order": reverse}
+				h.InFlight(desc)
+				var got [2]res
+				ok := withTimeout(5*time.Second, func() {
+					cmds := [2]*imapclient.StatusCommand{
+						client.Status(a, &imap.StatusOptions{NumMessages: true}),
+						client.Status(b, &imap.StatusOptions{NumMessages: true}),
+					}
+					var rcv []*peerCmd
+					for i := 0; i < 2000; i++ {
+						if rcv = peer.Commands(); len(rcv) >= n {
+							break
+						}
+						time.Sleep(time.Millisecond)
+					}
+					if len(rcv) < n {
+						got[0].err = fmt.Errorf("the peer received %d of %d commands", len(rcv), n)
+						return
+					}
+					order := []int{0, 1}
+					if reverse {
+						order = []int{1, 0}
+					}
+					var lines []string
+					for _, k := range order {
+						name := []string{a, b}[k]
+						if boxKey(name) == "INBOX" && (n/2)%2 == 0 {
+							name = "INBOX"
+						}
+						lines = append(lines, fmt.Sprintf("* STATUS %q (MESSAGES %d)", name, want[k]), rcv[n-2+k].Tag+" OK done")
+					}
+					desc["server"] = lines
+					for _, l := range lines {
+						peer.Send(l + "\r\n")
+					}
+					for k, c := range cmds {
+						d, err := c.Wait()
+						got[k].err = err
+						if d != nil {
+							got[k].box = d.Mailbox
+							if d.NumMessages != nil {
+								got[k].num = int(*d.NumMessages)
+							}
+						}
+					}
+				})
+				if !ok || got[0].err != nil || got[1].err != nil {
+					h.Fail("directed-status-names-failed", fmt.Sprintf("STATUS %q and STATUS %q did not both complete: returned=%v err=%v / %v", a, b, ok, got[0].err, got[1].err), desc)
+					return
+				}
+				for k, name := range []string{a, b} {
+					if got[k].num != want[k] || boxKey(got[k].box) != boxKey(name) {
+						h.Fail("data-misrouted:status-names", fmt.Sprintf("STATUS %q (pipelined with STATUS %q, reverse=%v) was answered with MESSAGES %d but its Wait returned Mailbox=%q MESSAGES=%d", name, []string{b, a}[k], reverse, want[k], got[k].box, got[k].num), desc)
+					}
+				}
+				h.Eval(fmt.Sprintf("status-names|%s|%s|%v", a, b, reverse))
+				h.Hist("directed:status-names")
+			}
+		}
+	}
 }
